@@ -16,7 +16,7 @@ import tempfile
 sys.path.insert(0, os.path.dirname(os.path.dirname(os.path.abspath(__file__))))
 from xpverif import selftest  # noqa: E402
 
-ALL = ["C%02d" % i for i in range(1, 19) if i != 17]
+ALL = ["C%02d" % i for i in range(1, 19)]
 SEEDED = os.path.join(selftest.VERIF, "seeded")
 
 
